@@ -57,13 +57,19 @@ pub struct Tok {
     pub class_name: bool,
     /// a decoy the statement says must stay untouched (for labels)
     pub decoy: bool,
+    /// token of an at-rule wrapper (keyword, prelude, braces) in a derived low-priority sheet
+    #[serde(default)]
+    pub wrapper: bool,
+    /// token of a `:host` rule (pure or combined)
+    #[serde(default)]
+    pub host: bool,
     /// source (line, utf16 col) filled in by the printer
     pub src_pos: (u32, u32),
 }
 
 impl Tok {
     pub fn new(kind: TokKind) -> Tok {
-        Tok { kind, class_name: false, decoy: false, src_pos: (0, 0) }
+        Tok { kind, class_name: false, decoy: false, wrapper: false, host: false, src_pos: (0, 0) }
     }
 }
 
@@ -76,6 +82,8 @@ pub enum Item {
 #[derive(Default)]
 pub struct Emit {
     pub items: Vec<Item>,
+    /// mark the tokens of at-rule wrappers (used for derived low-priority sheets)
+    pub mark_wrappers: bool,
 }
 
 impl Emit {
@@ -705,6 +713,18 @@ impl Prelude {
 
 impl Node {
     pub fn emit(&self, e: &mut Emit) {
+        let start = e.items.len();
+        self.emit_inner(e);
+        if matches!(self, Node::Host(_) | Node::HostCombined { .. }) {
+            for it in e.items[start..].iter_mut() {
+                if let Item::T(t) = it {
+                    t.host = true;
+                }
+            }
+        }
+    }
+
+    fn emit_inner(&self, e: &mut Emit) {
         match self {
             Node::Rule(r) => {
                 emit_selector_list_inner(&r.selectors, e);
@@ -745,10 +765,18 @@ impl Node {
                 e.close(Bracket::Curly);
             }
             Node::Group { name, prelude, body } => {
+                let start = e.items.len();
                 e.tok(TokKind::AtKeyword(name.clone()));
                 prelude.emit(e);
                 e.slot(Slot::Opt);
                 e.open(Bracket::Curly);
+                if e.mark_wrappers {
+                    for it in e.items[start..].iter_mut() {
+                        if let Item::T(t) = it {
+                            t.wrapper = true;
+                        }
+                    }
+                }
                 e.slot(Slot::Opt);
                 for (i, n) in body.iter().enumerate() {
                     if i > 0 {
@@ -758,6 +786,11 @@ impl Node {
                 }
                 e.slot(Slot::Opt);
                 e.close(Bracket::Curly);
+                if e.mark_wrappers {
+                    if let Some(Item::T(t)) = e.items.last_mut() {
+                        t.wrapper = true;
+                    }
+                }
             }
             Node::Keyframes { name, frames } => {
                 e.tok(TokKind::AtKeyword("keyframes".into()));
@@ -930,7 +963,12 @@ pub struct Sheet {
 
 impl Sheet {
     pub fn items(&self) -> Vec<Item> {
+        self.items_marked(false)
+    }
+
+    pub fn items_marked(&self, mark_wrappers: bool) -> Vec<Item> {
         let mut e = Emit::default();
+        e.mark_wrappers = mark_wrappers;
         e.slot(Slot::Opt);
         for (i, n) in self.nodes.iter().enumerate() {
             if i > 0 {
